@@ -51,9 +51,14 @@ REQUIRED_THEOREMS = [
     'OpusProps.C17.laplace_domain_ok', 'OpusProps.C17.laplace_int_ranges', 'OpusProps.C17.bits2pulses_spec',
     'OpusProps.C17.pulses2bits_cache', 'OpusProps.C17.cache_caps_recomputed', 'OpusProps.C17.cwrs_int_ranges',
     'OpusProps.C17.cwrs_val_ranges', 'OpusProps.C17.init_caps_domain', 'OpusProps.C17.alloc_total_ranges_budget',
-    'OpusProps.C17.alloc_enc_dec_agree',
+    'OpusProps.C17.alloc_enc_dec_agree', 'OpusProps.C17.celt_header_roundtrip_part1',
 ]
-UNPROVED = []
+UNPROVED = [
+    'celt_header_roundtrip (rest): tf_encode/tf_decode, spread, dynalloc boosts, allocation trim, the VBR shrink and the hand-over to '
+    'clt_compute_allocation (alloc_enc_dec_agree then applies), and the silent-frame case (silence flag 1: every later budget test fails '
+    'on both sides) — the encoder model for all of these is tied to the real encoder with 0 mismatches; the lock-step proof so far '
+    'covers silence flag 0, post-filter, transient, intra and coarse energy (celt_header_roundtrip_part1)',
+]
 LEVEL_TEXT = ('full proof: U/V recurrence and symmetry; cwrsi and icwrs (transcribed loop by loop from cwrs.c, both branches and '
               'the n==2/n==1 tails) are mutually inverse bijections between K-pulse vectors and [0,V(N,K)) for ALL N>=2, K>=1; the 1272 '
               'regenerated table words equal U(N,K) and are < 2^32; every (N,K) of the static mode\'s cache has V < 2^32 and a table walk '
